@@ -314,7 +314,14 @@ impl<'a> Iterator for TokenIterator<'a> {
                             break;
                         }
                     }
-                    let v = u32::from_str_radix(&*buf, 16).unwrap();
+                    let v = match u32::from_str_radix(&*buf, 16) {
+                        Ok(v) => v,
+                        Err(_) => {
+                            return Some(Token::Error(
+                                "Expected up to 8 hex digits after \\u".to_string(),
+                            ))
+                        }
+                    };
                     if let Some(c) = ::std::char::from_u32(v) {
                         let mut buf = String::new();
                         buf.push(c);
